@@ -584,16 +584,16 @@ class Tr:
         m = self.env["message"][0]
         if isinstance(f, ast.Attribute) and isinstance(f.value, ast.Name) and f.value.id == "cls":
             if f.attr == "_handle_sleep_buffer" and self.std_args(call, []) and len(call.args) == 3:
-                return f"(flush {m})"
+                return f"(GenBodies.sleepBuffer20 {m})"
             if f.attr == "handle_i_version" and self.std_args(call, []) and len(call.args) == 3:
                 self.uses_env = self.uses_v = True
-                return f"(runTyped env (Gen.versionHandlerChain v) {m})"
+                return f"(GenBodies.runTypedGen env (Gen.versionHandlerChain v) {m})"
             if f.attr == "_handle_message" and self.std_args(call, []) and len(call.args) == 4:
                 pre, h, ty = self.expr(call.args[3])
                 if ty != "handler":
                     raise Untranslatable("_handle_message with a non-handler")
                 self.uses_env = True
-                return self.wrap(pre, f"runTyped env {h} {m}")
+                return self.wrap(pre, f"GenBodies.runTypedGen env {h} {m}")
         if isinstance(f, ast.Name) and f.id == "func" and self.std_args(call, ["self"]):
             return f"(inner {m})"
         raise Untranslatable(f"call of {ast.unparse(f)[:50]}")
@@ -639,7 +639,7 @@ class Tr:
                         if kw.arg != "message_buffer" or not isinstance(kw.value, ast.Constant) or not isinstance(kw.value.value, bool):
                             raise Untranslatable("gateway.send keyword")
                         flag = "true" if kw.value.value else "false"
-                    return self.wrap(pre, f"gwSend {t} {flag}")
+                    return self.wrap(pre, f"GenBodies.gwSend' {t} {flag}")
                 # await gateway.transport.write(decoded_message)
                 if f.attr == "write" and isinstance(f.value, ast.Attribute) and f.value.attr == "transport" \
                         and len(call.args) == 1 and isinstance(call.args[0], ast.Name) and call.args[0].id == "decoded_message":
@@ -1155,12 +1155,96 @@ open AioMySensors M
 
 """
 
+GLUE_SEND = """/-! glue (constant text): `Gateway.send` after the dump picks the generated outgoing handler of the active protocol -/
+
+/-- The generated outgoing handler for a body of the outgoing table (`extract.py` calls `direct` the handlers
+whose generated text `Lemmas/BodiesEq.lean` checks to be a plain write). -/
+def outBody : OutBody → Msg → Bool → M Unit
+  | .direct => outInternal14
+  | .set14 => outSet14
+
+def gwSend' (m : Msg) (b : Bool) : M Unit :=
+  bind getSt fun st =>
+  match (Gen.outgoingHandlers st.proto).lookup m.cmd with
+  | none => raise (.foreign .ValueError)
+  | some none => raise (.foreign .AttributeError)
+  | some (some ob) => outBody ob m b
+
+def apiSendGen (obj : Option Msg) (buffer : Bool) : M Unit :=
+  match obj with
+  | none => raise (.lib .invalidMessage)
+  | some m => gwSend' m buffer"""
+
+GLUE_TYPED = """/-! glue (constant text): handlers reached through `getattr(cls, "handle_<type name>")`, with their decorators -/
+
+def leafGen (env : Env) : Body → Option (Msg → M Msg)
+  | .iVersion14 => some iVersion14
+  | .iIdRequest14 => some iIdRequest14
+  | .iConfig14 => some (iConfig14 env)
+  | .iTime14 => some (iTime14 env)
+  | .iBatteryLevel14 => some iBatteryLevel14
+  | .iSketchName14 => some iSketchName14
+  | .iSketchVersion14 => some iSketchVersion14
+  | .iGatewayReady20 => some iGatewayReady20
+  | .iDiscoverResponse20 => some iDiscoverResponse20
+  | .iHeartbeatResponse20 => some iHeartbeatResponse20
+  | .iHeartbeatResponse22 => some iHeartbeatResponse22
+  | .iPreSleepNotification22 => some iPreSleepNotification22
+  | .set14 => some set14
+  | .req14 => some req14
+  | _ => none
+
+def preGen : Body → Msg → M Unit
+  | .presentation20 => presentation20
+  | _ => fun _ => raise (.foreign .RuntimeError)
+
+def applyLayersGen (layers : List Layer) (base : Msg → M Msg) : Msg → M Msg :=
+  match layers with
+  | [] => base
+  | .wrap .missingPV :: ls => wrapMissingPV (applyLayersGen ls base)
+  | .wrap .missingNC :: ls => wrapMissingNC (applyLayersGen ls base)
+  | .pre b :: ls => fun m => seq (preGen b m) (applyLayersGen ls base m)
+
+def runInnerGen (env : Env) (ch : Chain) : Msg → M Msg :=
+  match leafGen env ch.base with
+  | some f => applyLayersGen ch.layers f
+  | none => fun _ => raise (.foreign .RuntimeError)
+
+/-- `_handle_message`: no handler -> the message is returned as it is. -/
+def runTypedGen (env : Env) (ch : Option Chain) : Msg → M Msg :=
+  match ch with
+  | some ch => runInnerGen env ch
+  | none => pure"""
+
+GLUE_RECV = """/-! glue (constant text): one iteration of `Gateway.listen`, every body taken from the translation -/
+
+def baseGen (env : Env) (v : Ver) : Body → Msg → M Msg
+  | .presentation14 => presentation14 env v
+  | .internal14 => internal14 env v
+  | .stream14 => stream14 env v
+  | b => match leafGen env b with
+    | some f => f
+    | none => fun _ => raise (.foreign .RuntimeError)
+
+def dispatchGen (env : Env) (v : Ver) (m : Msg) : M Msg :=
+  match (Gen.commandChains v).lookup m.cmd with
+  | none => raise (.foreign .ValueError)
+  | some ch => applyLayersGen ch.layers (baseGen env v ch.base) m
+
+def recvGen (env : Env) (line : Str) : M Msg :=
+  bind getSt fun st =>
+  match decode st.proto line with
+  | none => raise (.lib .invalidMessage)
+  | some m => dispatchGen env st.proto m"""
+
 ORDER = ["Node.add_child", "Node.set_child_value", "setProtocolVersion",
-         "outPresentation14", "outSet14", "outReq14", "outInternal14", "outStream14",
+         "outPresentation14", "outSet14", "outReq14", "outInternal14", "outStream14", "<GLUE_SEND>",
          "sleepBuffer20", "wrapMissingPV", "wrapMissingNC",
-         "presentation14", "set14", "req14", "internal14", "stream14", "iVersion14", "iIdRequest14", "iConfig14",
+         "set14", "req14", "iVersion14", "iIdRequest14", "iConfig14",
          "iTime14", "iBatteryLevel14", "iSketchName14", "iSketchVersion14", "presentation20", "iGatewayReady20",
-         "iDiscoverResponse20", "iHeartbeatResponse20", "iHeartbeatResponse22", "iPreSleepNotification22"]
+         "iDiscoverResponse20", "iHeartbeatResponse20", "iHeartbeatResponse22", "iPreSleepNotification22", "<GLUE_TYPED>",
+         "presentation14", "internal14", "stream14", "<GLUE_RECV>"]
+GLUE = {"<GLUE_SEND>": GLUE_SEND, "<GLUE_TYPED>": GLUE_TYPED, "<GLUE_RECV>": GLUE_RECV}
 
 
 def main() -> int:
@@ -1184,6 +1268,9 @@ def main() -> int:
         snap = {}
     chunks, status = [], {}
     for name in ORDER:
+        if name in GLUE:
+            chunks.append(GLUE[name])
+            continue
         r = res.get(name, {"error": "snapshot forced" if a.force_snapshot else "not attempted"})
         if "lean" in r:
             chunks.append(r["lean"])
@@ -1206,7 +1293,7 @@ def main() -> int:
             f.write(text)
     if a.update_snapshot:
         with open(a.snapshot, "w", encoding="utf-8") as f:
-            json.dump({n: res[n]["lean"] for n in ORDER if "lean" in res.get(n, {})}, f, indent=1, sort_keys=True)
+            json.dump({n: res[n]["lean"] for n in ORDER if n not in GLUE and "lean" in res.get(n, {})}, f, indent=1, sort_keys=True)
     if a.json:
         with open(a.json, "w", encoding="utf-8") as f:
             json.dump(status, f, indent=1, sort_keys=True)
